@@ -164,3 +164,69 @@ def module_constants(rel, wanted=None):
             except Exception:
                 pass
     return out
+
+
+SPANS = {}
+
+
+def load_pyx(rel, names, ns=None, transform=None, float_mode=False):
+    """transliterate the named functions / Class.method of a .pyx file and compile them (one namespace). Returns ({qual: fn}, ns).
+    float_mode: literals stay floats and `/`, `**` are the ordinary operators (used to REPLAY a model on the current source)."""
+    from . import pyx2py
+    path = repo_path(rel)
+    src = open(path).read()
+    full = base_ns()
+    if float_mode:
+        from .replay import float_ns
+        full.update(float_ns())
+    full.update(pyx2py.RUNTIME)
+    if ns:
+        full.update(ns)
+    if isinstance(names, str):
+        names = [names]
+    out = {}
+    for qual in names:
+        newname = qual.replace('.', '__')
+        code, span = pyx2py.translit_function(src, qual, newname)
+        seg = '\n'.join(src.split('\n')[span[0] - 1:span[1]])
+        SPANS[(os.path.relpath(path, REPO), qual)] = span
+        if not float_mode:
+            ENCODED.append({'file': os.path.relpath(path, REPO), 'function': qual, 'sha256_16': hashlib.sha256(seg.encode()).hexdigest()[:16], 'lines': '%d-%d' % span,
+                            'via': 'pyx2py transliteration'})
+        try:
+            tree = ast.parse(code)
+        except SyntaxError as e:
+            raise SyntaxError('transliteration of %s:%s does not parse: %s\n%s' % (rel, qual, e, code)) from None
+        node = _strip(tree.body[0])
+        if transform:
+            node = transform(node)
+        node = _Rewrite(code).visit(node)
+        mod = ast.Module(body=[node], type_ignores=[])
+        ast.fix_missing_locations(mod)
+        exec(compile(mod, '%s:%s' % (os.path.relpath(path, REPO), qual), 'exec'), full)
+        out[qual] = full[newname]
+        full[qual.split('.')[-1]] = full[newname] if '.' not in qual else full.get(qual.split('.')[-1], full[newname])
+    return out, full
+
+
+def pyx_function_names(rel):
+    import re as _re
+    src = open(repo_path(rel)).read()
+    out = []
+    cls = None
+    for ln in src.split('\n'):
+        m = _re.match(r'^(?:cdef\s+)?class\s+(\w+)', ln)
+        if m:
+            cls = m.group(1)
+            continue
+        if ln and not ln[0].isspace() and not ln.startswith('#') and not _re.match(r'^(cdef|cpdef|def)\s', ln):
+            if not ln.startswith(('@', ')')):
+                cls = None if not ln.startswith(' ') and _re.match(r'^\w', ln) else cls
+        m = _re.match(r'^(\s*)(?:cdef|cpdef|def)\s+(?:[^()=:]*?[\s\*])?(\w+)\s*\(', ln)
+        if m and not ln.lstrip().startswith('#'):
+            if m.group(1) == '':
+                cls = None
+                out.append(m.group(2))
+            elif cls:
+                out.append(cls + '.' + m.group(2))
+    return out
